@@ -311,6 +311,9 @@ func setupRelayProxy(c *casket.Controller) error {
 			}
 			m := &rwMonitor{ResponseWriterWrapper: &httpserver.ResponseWriterWrapper{ResponseWriter: w}, rig: rig, owner: goid(), id: req.Header.Get("X-Req")}
 			req = req.WithContext(context.WithValue(req.Context(), relayReqKey{}, req.Header.Get("X-Req")))
+			rig.seqMu.Lock()
+			rig.selT0["enter:"+req.Header.Get("X-Req")] = rig.c.Now() // (try_duration runs from here: the upload that is buffered for retries counts)
+			rig.seqMu.Unlock()
 			st, err := px.ServeHTTP(m, req)
 			rig.seqMu.Lock()
 			rig.servedAt[req.Header.Get("X-Req")] = rig.c.Now()
@@ -640,6 +643,22 @@ func runRelayIn(c *sim.Ctl, mode string) {
 			b.WriteString("\t\tfail_timeout 10s\n\t\tmax_fails 1\n")
 		}
 	}
+	if r.hosts >= 2 && pick(40) {
+		// one request per backend at a time: a request that finds the last working backend taken waits its turn
+		b.WriteString("\t\tmax_conns 1\n")
+		c.Params["max_conns"] = 1
+		// a scheduling point between choosing a backend and counting the request against it: two
+		// requests may both have chosen the backend with the last free slot
+		countSeq := 0
+		proxy.VerifBeforeCount = func() {
+			if r.cleanup {
+				return
+			}
+			countSeq++
+			c.Park(fmt.Sprintf("hook.count/#%d", countSeq), "proxy-counting")
+		}
+		defer func() { proxy.VerifBeforeCount = nil }()
+	}
 	if r.without != "" {
 		fmt.Fprintf(&b, "\t\twithout %s\n", r.without)
 	}
@@ -749,7 +768,11 @@ func (r *relayRig) addReq(i int) {
 		q.method = "POST"
 	}
 	q.path = "/api" + []string{"", "/", "/x", "/x/y.json", "/a%2Fb/c%20d", "/%7Euser/file", "/x//y", "/caf%C3%A9"}[st.Draw(8)]
-	if pick(10) {
+	if pick(6) {
+		// a path that matches the proxied prefix only after lower-casing has changed its length (U+0130
+		// lower-cases to "i" plus a combining dot): it is proxied, and 'without /api' has nothing to cut
+		q.path = "/ap%C4%B0/users"
+	} else if pick(10) {
 		q.path = "/API" + q.path[4:] // the proxied path matches without regard to letter case, and so does its 'without' prefix
 	}
 	if r.pathRule && pick(20) {
@@ -1177,7 +1200,7 @@ func (r *relayRig) judge() {
 				}
 			}
 		} else if !faulty && q.cl.done {
-			if r.hosts >= 2 && r.servedAt[fmt.Sprint(q.id)]-r.selT0[fmt.Sprint(q.id)] >= 2*time.Second-7*time.Millisecond {
+			if r.hosts >= 2 && r.servedAt[fmt.Sprint(q.id)]-r.selT0["enter:"+fmt.Sprint(q.id)] >= 2*time.Second-7*time.Millisecond {
 				// the schedule held this request's attempts back for the whole try_duration
 				// (a parked dial is only released when the controller says so): giving up is in order
 				c.Probe("retry-duration-spent-by-the-schedule")
